@@ -121,7 +121,11 @@ def Acct.finalise (a : Acct) : Acct :=
   else { a with orig := a.stor }
 
 /-- StateDB.Finalise(true) between two transactions of a block (core/state_processor.go).
-    Assumes every live empty account is dirty, which holds when the pre-state has no empty accounts. -/
+    The real one deletes the *dirty* suicided-or-empty objects. Every suicided object is dirty; an empty object is
+    dirty unless it was re-created over a deleted object by GetOrNewStateObject with nothing written afterwards
+    (resetObjectChange does not dirty) — then an empty object stays in the cache, never reaches the trie, and only
+    `Exist` can tell. The model deletes every empty object; the correspondence shows empty accounts as
+    non-existent on both sides. -/
 def World.finalise (w : World) : World :=
   { w with acct := fun x => (w.acct x).finalise, logs := [], refund := 0 }
 
